@@ -2,7 +2,7 @@
    the inputs the real install / upgrade / template / lint ran on, compares the projected
    outcome, and compares [valid] with the real jsonschema library's verdicts. *)
 From Coq Require Import List String Bool Arith ZArith.
-From Helm Require Import Common.Strs Values.Tree Values.Schema Values.Scope Values.Deps Values.Gate.
+From Helm Require Import Common.Strs Values.Tree Values.Schema2 Values.Schema Values.Scope Values.Deps Values.Gate.
 Import ListNotations.
 
 Inductive op := OpInstall | OpInstallPlain | OpInstallDry | OpTemplate | OpUpgrade | OpUpgradeDry | OpLint.
@@ -14,6 +14,8 @@ Record obs := mkObs {
 Inductive case :=
 | mkCase (c : chart) (vals : vmap) (compat : list (string * string * bool)) (o : op)
          (skip skipcrds : bool) (ob : obs) (pairs : list (schema * val * bool))
+         (dpairs : list (val * val * verdict * bool))
+| mkPairs (dpairs : list (val * val * verdict * bool))     (* the schema step alone *)
 | mkSkip.
 
 Definition compat_of (tbl : list (string * string * bool)) (constraint ver : string) : bool :=
@@ -66,11 +68,22 @@ Definition obs_agree (m o : obs) : bool :=
 Definition pairs_agree (ps : list (schema * val * bool)) : bool :=
   forallb (fun p => Bool.eqb (valid (fst (fst p)) (snd (fst p))) (snd p)) ps.
 
+(* schemas given as documents: (document, final values of the chart, the library's verdict through
+   ValidateAgainstSingleSchema, the generator's claim that the document is inside the model's
+   keyword family).  Inside: the model's verdict is the library's (in particular never "out of
+   fuel" or "unsupported"); outside: the model must say so. *)
+Definition dpairs_agree (ps : list (val * val * verdict * bool)) : bool :=
+  forallb (fun p : val * val * verdict * bool =>
+             let '(d, v, lib, inside) := p in
+             if inside then verdict_eqb (doc_verdict d v) lib
+             else verdict_eqb (doc_verdict d v) VUnsupported) ps.
+
 Definition case_ok (c : case) : bool :=
   match c with
   | mkSkip => true
-  | mkCase ch vals tbl o skip skipcrds ob ps =>
-      obs_agree (model_obs ch vals tbl o skip skipcrds) ob && pairs_agree ps
+  | mkPairs dps => dpairs_agree dps
+  | mkCase ch vals tbl o skip skipcrds ob ps dps =>
+      obs_agree (model_obs ch vals tbl o skip skipcrds) ob && pairs_agree ps && dpairs_agree dps
   end.
 
 Fixpoint mismatches_from (i : nat) (cs : list case) : list nat :=
